@@ -34,7 +34,8 @@ REAL = ["aiomysensors.Gateway.send", "get_outgoing_message_handler", "outgoing h
 STUB = ["event loop (SimLoop)", "transport (SimTransport)"]
 ASSUMPTIONS = ["codec acceptance per the C02 recogniser"]
 REQUIRED_PROBES = ["cmd0", "cmd1", "cmd2", "cmd3", "cmd4", "dest_sleeping", "dest_unknown", "dest_awake",
-                   "held_then_released", "written_at_once", "not_a_message", "stateful_prehistory"]
+                   "held_then_released", "written_at_once", "not_a_message", "stateful_prehistory",
+                   "batch_with_write_fault"]
 SHRINK_LISTS = ("cases", "pre")
 SET_TYPES = 57
 PRES_TYPES = 40
@@ -63,7 +64,7 @@ GRID = grid()
 
 
 def budget(tier):
-    return 2500 if tier == "quick" else len(GRID) + 60_000
+    return 10000 if tier == "quick" else len(GRID) + 60_000
 
 
 def wall(tier):
@@ -101,7 +102,12 @@ def gen(seed: int, i: int, tier: str) -> dict:
             for _ in range(rng.randint(1, 3)):
                 t = rng.choice([19, 19, 18, 13, 20, 24])
                 cases.append([rng.choice(["unknown", "unknown", "awake", "sleeping"]), 3, t, rng.random() < 0.8, 0, ""])
-    return {"cfg": {"pin": proto}, "pre": pre, "cases": cases}
+    scn = {"cfg": {"pin": proto}, "pre": pre, "cases": cases}
+    if proto in G.PROTOS_2X and rng.random() < 0.25:
+        # several messages held for the sleeping node, then a wake during which transport writes fail
+        scn["batch"] = [[2, rng.choice([0, 1]), 1, 0, t, f"b{k}"] for k, t in enumerate(rng.sample([0, 2, 3, 24, 47], rng.randint(2, 4)))]
+        scn["tapes"] = {"w.fail.set": [rng.choice([0, 1, 2]) for _ in range(3)]}
+    return scn
 
 
 RAW = {"str": "1;0;1;0;2;1\n", "none": None, "int": 7, "dict": {"node_id": 1}, "tuple": (1, 0, 1, 0, 2, "1")}
@@ -115,6 +121,8 @@ def run(scn) -> RunResult:
     with gc_paused():
         w = GwWorld({"pin": proto}, {})
         try:
+            if scn.get("batch"):
+                _batch(scn, proto, res)
             restore_nodes(w.gateway, {
                 "1": {"type": 17, "version": proto, "children": {"0": {"type": 3, "desc": "c"}}},
                 "2": {"type": 17, "version": proto, "sleeping": True, "children": {"0": {"type": 3, "desc": "c"}}},
@@ -195,3 +203,35 @@ def run(scn) -> RunResult:
     if nt:
         res.nontrivial_key = ("C12", proto, tuple(nt))
     return res
+
+
+def _batch(scn, proto, res):
+    """Messages held for a sleeping node must all reach the transport exactly once, also when writes fail at a wake."""
+    w = GwWorld({"pin": proto}, scn.get("tapes"))
+    try:
+        restore_nodes(w.gateway, {"2": {"type": 17, "version": proto, "sleeping": True,
+                                        "children": {"0": {"type": 3, "desc": "c"}, "1": {"type": 3, "desc": "c"}}}})
+        lines = {}
+        for f in scn["batch"]:
+            obs = w.send_step(tuple(f), True)
+            if obs.kind == "ok" and not obs.writes:
+                lines[(f[0], f[1], f[4])] = encode(tuple(f))
+        written = []
+        failed_any = False
+        for k in range(len(scn["batch"]) + 4):
+            o = w.listen_step(G.wake_line(proto, 2, k))
+            written += [ln for ln, ok in o.writes if ok]
+            failed_any = failed_any or any(not ok for _, ok in o.writes)
+            if any(not ok for _, ok in o.writes) and not o.is_transport_error:
+                res.violate(PROP, "held-messages-reach-transport", "write-failure-swallowed", f"{o.kind}:{o.cls}")
+        res.probes["batch_with_write_fault" if failed_any else "batch_fault_free"] += 1
+        for key, line in lines.items():
+            n = written.count(line)
+            if n != 1:
+                res.violate(PROP, "never-silently-discarded" if n == 0 else "exactly-one-outcome",
+                            f"held-then-{'lost' if n == 0 else 'repeated'}:after-write-fault" if failed_any else
+                            f"held-then-{'lost' if n == 0 else 'repeated'}",
+                            f"{proto}: {line!r} written {n} times over {len(scn['batch']) + 4} wakes; all writes {written}")
+        res.ops += len(scn["batch"]) + 4
+    finally:
+        w.close()
